@@ -271,11 +271,66 @@ func (t *table) apply(o op) (res string) {
 		case "corrupt-empty":
 			ioutil.WriteFile(t.file, nil, 0644)
 		default:
+			if strings.HasPrefix(o.disk, "T:") {
+				ioutil.WriteFile(t.file, handWritten(t.users, o.disk[2:]), 0644)
+				return "ok"
+			}
 			ioutil.WriteFile(t.file, []byte("[\n\t{\n\t\t\"name\": \"adm"), 0644)
 		}
 		return "ok"
 	}
 	return "?"
+}
+
+// a table file written by hand (not by Flush): entries "+"-separated, fields "."-separated, hex
+func handWritten(users bool, body string) []byte {
+	var list []map[string]interface{}
+	if body != "" {
+		for _, e := range strings.Split(body, "+") {
+			f := strings.Split(e, ".")
+			u := func(i int) string { return string(Unhx(f[i])) }
+			if users {
+				list = append(list, map[string]interface{}{"name": u(0), "password": u(1), "admin": f[2] == "1", "push": u(3), "pull": u(4)})
+			} else {
+				list = append(list, map[string]interface{}{"pattern": u(0), "url": u(1), "keepalive": f[2] == "1"})
+			}
+		}
+	}
+	b, _ := json.MarshalIndent(list, "", "  ")
+	if list == nil {
+		b = []byte("[]")
+	}
+	return b
+}
+
+func genHandWritten(c *Ctx, users bool) (string, []string) {
+	r := c.Rng
+	n := 1 + r.Intn(4)
+	var es, keys []string
+	seen := map[string]bool{}
+	for i := 0; i < n; i++ {
+		if users {
+			k := userNames[r.Intn(len(userNames))]
+			if seen[strings.ToLower(k)] && !r.Chance(10) {
+				continue
+			}
+			seen[strings.ToLower(k)] = true
+			keys = append(keys, k)
+			es = append(es, strings.Join([]string{hx(k), hx(passwords[r.Intn(len(passwords))]), B01(r.Chance(40)), hx(rights[r.Intn(len(rights))]), hx(rights[r.Intn(len(rights))])}, "."))
+		} else {
+			k := routePatterns[r.Intn(len(routePatterns))]
+			ck := utils.CanonicalPath(k)
+			if seen[ck] && !r.Chance(10) {
+				continue
+			}
+			seen[ck] = true
+			keys = append(keys, k)
+			u := routeURLs[r.Intn(len(routeURLs))]
+			_, err := url.Parse(u)
+			es = append(es, strings.Join([]string{hx(k), hx(u), B01(r.Chance(30)), B01(err == nil)}, "."))
+		}
+	}
+	return "T:" + strings.Join(es, "+"), keys
 }
 
 // ---------------------------------------------------------------- crash child
@@ -427,6 +482,13 @@ func genOps(c *Ctx, users bool, n int, withReload bool) []op {
 		}
 		if r.Chance(12) {
 			ops = append(ops, op{kind: 'x', disk: []string{"missing", "emptylist", "corrupt-empty", "corrupt-trunc"}[r.Intn(4)]}, op{kind: 'r'}, op{kind: 'a'})
+		} else if r.Chance(15) {
+			// a table file written by hand (upper-case names, non-canonical patterns, administrators without rights)
+			d, keys := genHandWritten(c, users)
+			ops = append(ops, op{kind: 'x', disk: d}, op{kind: 'r'}, op{kind: 'a'})
+			for _, k := range keys {
+				ops = append(ops, op{kind: 'g', key: k})
+			}
 		}
 	} else {
 		ops = append(ops, op{kind: 'a'})
@@ -692,6 +754,13 @@ func runC18(c *Ctx) {
 					c.Count("flush-writes")
 				} else {
 					c.Count("flush-" + impl[j])
+				}
+			}
+			if o.kind == 'x' {
+				if strings.HasPrefix(o.disk, "T:") {
+					c.Count("file-hand-written")
+				} else {
+					c.Count("file-" + o.disk)
 				}
 			}
 			if o.kind == 'r' {
